@@ -20,6 +20,9 @@ for name in sorted(res):
         if p == prop:
             continue
         others.append(f"{p}: {'caught' if c['exit'] == 1 else 'exit ' + str(c['exit'])}")
+    if meta.get('no_longer_breaks_property') and own.get('exit') == 0:
+        print(f"| {name} | {short} | exit 0 - the change no longer breaks the property on the repaired tree (10.5) | - | - |")
+        continue
     kind = {1: 'VIOLATION (exit 1)', 2: 'undecided (exit 2)', 0: '**missed** (exit 0)', 3: 'crash (exit 3)'}.get(own.get('exit'), str(own.get('exit')))
     port = ' (ported)' if r.get('patch') == 'patch.ported.diff' else ''
     print(f"| {name}{port} | {short} | {kind}, {own.get('wall', '?')} s | {'; '.join(obs)} | {', '.join(others) or '-'} |")
